@@ -121,6 +121,8 @@ def run_check(prop, tier, seed, t0, a):
     n_obl = n_dis = 0
     solver_s = 0.0
     assumed = set()
+    domain_evals = 0
+    domain_info = []
     d = dict(outs=[], wall_s=0.0)
     new_lock = {}
     if not a.no_deductive:
@@ -173,6 +175,24 @@ def run_check(prop, tier, seed, t0, a):
                 violations.append((ident, p, ' no-failing-input-found'))
             else:
                 undecided.append(f'{ident}: failed ({r["tag"]}, in_lock={in_lock}) without real failing input: {r["detail"]}')
+        dom = out.get('domain')
+        if dom:
+            domain_evals += dom['evaluated']
+            domain_info.append(dict(function=key, evaluated=dom['evaluated'], violating=dom['violating'],
+                                    wall_s=dom['wall_s']))
+            if dom['violating']:
+                for fv in dom['first'][:1]:
+                    ident = f'{key.split(":")[1]}::{fv["violations"][0][0]}'
+                    km = known_match(known, prop, ident)
+                    if km:
+                        known_hits.append((ident, km.get('what', '')))
+                        continue
+                    p = write_replay(prop, ident + ':domain', dict(
+                        property=prop, obligation=ident, function=key, what='executable contract violated on the '
+                        'real function for an input of its bounded domain', inputs=fv['call'],
+                        observed=fv['violations']))
+                    if not any(v[0] == ident for v in violations):
+                        violations.append((ident, p, ''))
         new_lock[key] = sorted(n for n in names if '::cover[' not in n)
         missing = set(lock.get(key, [])) - names
         if missing and not a.update_lock:
@@ -227,7 +247,8 @@ def run_check(prop, tier, seed, t0, a):
                      f'against sidecar contracts; {n_dis}/{n_obl} obligations discharged by z3/cvc5 for all inputs. '
                      + (f'Layer B (bounded, never counted as proved): {bounded.get("bound", "")}' if bounded else
                         'No bounded layer for this property.')),
-        evaluations=(bounded or {}).get('evaluations', 0) + n_obl,
+        evaluations=(bounded or {}).get('evaluations', 0) + n_obl + domain_evals,
+        function_domains=domain_info,
         distinct_nontrivial=(bounded or {}).get('distinct_nontrivial', 0) + n_dis,
         rule=(bounded or {}).get('rule', 'deductive obligations only') +
              ' | deductive: one obligation per contract clause / invariant / implicit-exception site, aggregated over paths',
